@@ -346,6 +346,18 @@ def run(rep):
                        "window 2: the interpolant/gradient equalities are non-linear queries whose nlsat time is erratic; they are attempted under a cap and, if the solver does not answer, "
                        "reported under notes and dropped from the claim (never counted as held); window 1 and the zoh-coincidence/bracketing obligations are required"]
     obs = pmap("props.c11", "worker", cfgs, rep.tier)
+    # the interpolation obligations assume a window extended by ext = ceil(rate*(max-min)) entries (what a regular sender can have in flight within [min, max]);
+    # that the code's TrainableDist.window provides them is checked here against the exact rational bound, also for lower bounds that are not a whole
+    # number of sender periods
+    from fractions import Fraction
+    from vlib.common import Ob
+    rep.encode(TrainableDist.window)
+    for (rate, mn, mx) in [(64, 0.0, 0.03125), (64, 0.015625, 0.0625), (32, 0.015625, 0.0234375), (10, 0.05, 0.2), (100, 0.001, 0.0235), (64, 0.0078125, 0.03515625), (10, 0.11, 0.19)]:
+        code = TrainableDist.create(mn, mn, mx).window(rate)
+        need = int(-((-Fraction(str(rate)) * (Fraction(str(mx)) - Fraction(str(mn)))) // 1))
+        obs.append(Ob("the window is extended by at least ceil(rate*(max-min)) entries", "unsat" if code >= need else "sat", 0, dict(rate=rate, min=mn, max=mx), detail=f"window()={code} needed={need}",
+                      trivial=True, replayed=True, key="interp-window-extension",
+                      what=f"TrainableDist.window({rate}) = {code} extra entries for [min, max] = [{mn}, {mx}], but {need} messages of a regular sender can be in flight: the interpolant is clamped to a too-new message"))
     pcfgs = [dict(W=w, rate=64, min=0.0, max=0.03125, interp=ip, payload=list(ps)) for ip in ("linear", "linear_real_only") for w, ps in ((2, (2,)), (1, (3,)), (3, (2,)), (2, (2, 2)))]
     if rep.tier == "thorough":
         pcfgs += [dict(W=w, rate=64, min=0.015625, max=0.0625, interp=ip, payload=list(ps)) for ip in ("linear", "linear_real_only") for w, ps in ((2, (3,)), (3, (2, 2)), (4, (2,)))]
